@@ -3,6 +3,7 @@ import GwModel.Select
 import GwModel.ExecFacts
 import GwModel.Gen.Facts
 import GwModel.FindPtsInsert
+import GwModel.PlanShape
 /-! # C13 — Every fetch is issued exactly once and no hop is needless -/
 namespace Props.C13
 open Facts
@@ -22,6 +23,21 @@ theorem stays_with_parent (possible configured : List Sel.Loc) (parent internal 
     Sel.selectLocation Gen.selectLoc possible configured parent internal = some parent := by
   have ho : Gen.selectLoc.order = [.configured, .parent, .internal] := facts_safe.1.2.2.2
   unfold Sel.selectLocation; rw [ho, Sel.prioOf_safe]; exact Sel.choose_parent hnone hpar
+
+/-- **no needless hop, plan level, whole planner** (model `Pl`, tied to plan.go by L1.plan): in every plan — any
+    document, fragments, wrappers, routing table, priorities, fuel — the step a follow-up step hangs off is at a
+    service the chooser leaves for some field; so a step at a service that keeps everything it is asked has no
+    follow-up steps … -/
+theorem follow_ups_only_below_services_the_chooser_leaves {env : Pl.Env} {fuel : Nat} {operation : String}
+    {sels : List Pl.Sel} {steps : List Pl.Step} (h : Pl.planOperation env fuel operation sels = .ok steps) :
+    ∀ t ∈ steps, ∀ q, t.parent = some q → ∃ s ∈ steps, s.id = q ∧ ¬ Pl.AllLocal env s.location :=
+  Pl.planOperation_no_needless_hop h
+
+/-- … and a service keeps everything it is asked when no priorities are configured and it offers every field of
+    the routing table -/
+theorem a_service_offering_everything_keeps_everything {env : Pl.Env} {L : Pl.Loc} (hp : env.configured = [])
+    (hall : ∀ k possible, env.routes.lookup k = some possible → L ∈ possible) : Pl.AllLocal env L :=
+  Pl.allLocal_of_offers_everything hp hall
 
 /-- no needless hop, plan level (core query class): if the chooser keeps every field at the current
     service, the split creates no dependent step at all — the query is answered by a single request -/
